@@ -2,6 +2,7 @@
   C05 — results do not depend on worker count or completion order.
 -/
 import YawVerif.Model.Schedule
+import YawVerif.Generated.Wrappers
 import Mathlib.Data.List.Perm.Basic
 import Mathlib.Tactic.Linarith
 
@@ -110,5 +111,27 @@ theorem glue_pinned :
 
 /-! non-vacuity -/
 example : assignFold [((0, 1), 5), ((1, 1), 7)] (1, 1) = some 7 := by decide
+
+/-- the progress wrapper put around the unordered result stream (and around the chunk reader): on the root it loops
+over the wrapped iterable and yields each item once, unconditionally; on every other rank it is `yield from` — modelled
+as the two functions below, whose shape is read off `Indicator.__iter__` on every run (`progress_wrapper_flags`). -/
+def indicatorRoot {α : Type} (xs : List α) : List α := xs.foldl (fun acc x => acc ++ [x]) []
+def indicatorWorker {α : Type} (xs : List α) : List α := xs
+
+theorem indicatorRoot_eq {α : Type} (xs : List α) : indicatorRoot xs = xs := by
+  unfold indicatorRoot
+  suffices h : ∀ acc : List α, xs.foldl (fun acc x => acc ++ [x]) acc = acc ++ xs by simpa using h []
+  induction xs with
+  | nil => intro acc; simp
+  | cons x xs ih => intro acc; simp [ih]
+
+/-- results do not depend on the progress display: with or without the wrapper, on the root and on the workers, the
+consumer sees the same items in the same order, each exactly once -/
+theorem progress_wrapper_transparent {α : Type} (xs : List α) (root : Bool) :
+    (if root then indicatorRoot xs else indicatorWorker xs) = xs := by
+  cases root <;> simp [indicatorRoot_eq, indicatorWorker]
+
+theorem progress_wrapper_flags :
+    Gen.indicatorRootYieldsEach = true ∧ Gen.indicatorWorkerYieldsFrom = true ∧ Gen.indicatorKeepsIterable = true := by decide
 
 end Yaw.C05
